@@ -56,7 +56,7 @@ Inductive cond : Type :=
 | Either (a b : cond)
 | When (guard c : cond)                            (* guard -> c *)
 | PonInPlace          (* dst = src + cipher_start_src_offset_in_bytes (address arithmetic) *)
-| PonPliFits          (* XGEM payload length indication vs cipher length *)
+| PonPliFits          (* XGEM payload length indication vs payload length *)
 | DocsisLenFits       (* msg_len_to_cipher + 8 <= msg_len_to_hash *)
 | DocsisOffsetFits    (* cipher offset >= hash offset + 12 *)
 | SglArrayNonNull     (* num_sgl_io_segs > 0 -> sgl_io_segs != NULL *)
@@ -68,6 +68,9 @@ Inductive cond : Type :=
    its 14 most significant bits.  [jv_mem_xgem_hdr] is the little-endian load of those 8 bytes,
    so the big-endian value is its byte swap.  (A 14-bit field: the 16-bit mask is the identity.) *)
 Definition pon_pli (j : job_view) : N := w16 (N.shiftr (bswap64 (jv_mem_xgem_hdr j)) 50).
+
+Definition pon_payload_len (j : job_view) : N :=
+  if jv_msg_len_to_cipher j =? 0 then jv_msg_len_to_hash j - 8 else jv_msg_len_to_cipher j.
 
 Definition seg_in_ok (s : sgl_seg) : bool := (seg_len s =? 0) || negb (seg_in s =? 0).
 Definition seg_out_ok (s : sgl_seg) : bool := (seg_len s =? 0) || negb (seg_out s =? 0).
@@ -87,9 +90,11 @@ Fixpoint holds (c : cond) (j : job_view) : bool :=
   | When g a => negb (holds g j) || holds a j
   | PonInPlace => jv_dst j =? add64 (jv_src j) (jv_cipher_start_src_offset j)
   | PonPliFits =>
-      (* [C] "CRC only if PLI is more than 4 bytes"; the CRC covers PLI-4 bytes, which must lie
-         inside the ciphered region less its own 4 bytes *)
-      (pon_pli j <=? 4) || (pon_pli j - 4 <=? jv_msg_len_to_cipher j - 4)
+      (* [C] "CRC only if PLI is more than 4 bytes"; the CRC covers PLI-4 bytes of the payload that
+         follows the XGEM header and is followed by the 4 CRC bytes; the payload is the ciphered
+         range or, when nothing is ciphered, the hashed range less the 8-byte header
+         (commit f74b8e1 "PON jobs without ciphering were accepted with a PLI larger than the frame") *)
+      (pon_pli j <=? 4) || ((4 <=? pon_payload_len j) && (pon_pli j - 4 <=? pon_payload_len j - 4))
   | DocsisLenFits => jv_msg_len_to_cipher j + 8 <=? jv_msg_len_to_hash j
   | DocsisOffsetFits => jv_hash_start_src_offset j + 12 <=? jv_cipher_start_src_offset j
   | SglArrayNonNull => (jv_num_sgl_io_segs j =? 0) || negb (jv_sgl_io_segs j =? 0)
@@ -273,7 +278,8 @@ Definition rules_PON : list rule :=
     "16-byte IV when ciphering" ::: When CipherLenNonZero (IvLenIn [16]) ==> IMB_ERR_JOB_IV_LEN;
     "iv != NULL when ciphering" ::: When CipherLenNonZero (NonNull jv_iv) ==> IMB_ERR_JOB_NULL_IV;
     "enc_keys != NULL when ciphering" ::: When CipherLenNonZero (NonNull jv_enc_keys) ==> IMB_ERR_JOB_NULL_KEY;
-    "PLI consistent with the cipher length" ::: When (ValAtLeast jv_msg_len_to_cipher 4) PonPliFits ==> IMB_ERR_JOB_PON_PLI ].
+    "PLI consistent with the payload length (frame holds an XGEM header)" :::
+      When (Either (ValAtLeast jv_msg_len_to_cipher 4) (ValAtLeast jv_msg_len_to_hash 8)) PonPliFits ==> IMB_ERR_JOB_PON_PLI ].
 
 (* ZUC-EEA3 [H: IMB_ZUC_KEY_LEN_IN_BYTES 16, IMB_ZUC_IV_LEN_IN_BYTES 16, ZUC256 key 32, IV 23..25]
    [T: "max is 8188 bytes"]; [code]: a 24-byte ZUC-256 IV is not accepted, only 23 or 25 *)
